@@ -28,3 +28,7 @@ def run(repo, res, tier):
     from .. import apirules as _ap5
     _ap5.rule_f5(repo, res)
     _hkz.rule_writer_fwd(repo, res)
+    # what the tool writes is what dump() writes: the write forms of pvl.dump (text for text streams, bytes otherwise, to the
+    # stream itself)
+    from .. import apirules as _ap20
+    _ap20.rule_f1(repo, res, "__init__")
